@@ -1212,7 +1212,11 @@ ecdsa_sign(ec_curve_p curve, bn_p hash, bn_p priv_key, bn_p rnd,
 	    &curve->n_mod_rd_data));
 	/* R = rnd*G */
 	/* Slow operation. */
+	if (0 != bn_is_zero(sign_s)) /* k = 0: caller must supply another random. */
+		return (-1);
 	BN_RET_ON_ERR(ec_point_mult_bp(sign_s, curve, &R));
+	if (0 != R.infinity)
+		return (-1);
 	/* r = Rx mod n */
 	BN_RET_ON_ERR(bn_mod(&R.x, &curve->n, &curve->n_mod_rd_data));
 	if (0 != bn_is_zero(&R.x))
